@@ -8,7 +8,7 @@ Nothing here touches /repo's working tree or /verif's evidence: the checks run f
 import os, sys, json, shutil, subprocess, glob
 from concurrent.futures import ThreadPoolExecutor
 VERIF = os.path.dirname(os.path.dirname(os.path.abspath(__file__)))
-ROUNDS = [('/tmp/seed/out', '/root/seedtools/confirm', 'ab'), ('/tmp/seed2/out', '/root/seedtools/confirm2', 'c'), ('/tmp/seed3/out', '/root/seedtools/confirm4', 'de')]
+ROUNDS = [('/tmp/seed/out', '/root/seedtools/confirm', 'ab'), ('/tmp/seed2/out', '/root/seedtools/confirm2', 'c'), ('/tmp/seed3/out', '/root/seedtools/confirm4', 'de'), ('/tmp/seed4/out', '/root/seedtools/confirm5', 'f')]
 REBASED = '/var/tmp/preseed'        # patches re-based by hand onto the repaired tree live here (see meta.json: rebased_onto)
 EXTRA = {'C01': ['C05', 'C03'], 'C02': ['C08'], 'C03': ['C08', 'C04'], 'C04': ['C03'], 'C06': ['C03', 'C07'], 'C07': ['C06', 'C01'], 'C08': ['C03'], 'C09': ['C03'], 'C10': [], 'C11': [], 'C12': ['C08'],
          'C13': ['C14'], 'C14': ['C13'], 'C15': ['C13'], 'C16': ['C13'], 'C17': [], 'C05': ['C01']}
